@@ -8,7 +8,7 @@ namespace StoneVerif.FeCompile.L
 open StoneVerif.FeCompile
 open StoneVerif.FeParams (TyKind)
 
-theorem wrapNull_ok {A b t0 t} (h : wrapNull A b t0 = .ok t) : t = if b then .nullable t0 else t0 := by
+theorem wrapNull_ok {fu A b t0 t} (h : wrapNull fu A b t0 = .ok t) : t = if b then .nullable t0 else t0 := by
   unfold wrapNull at h
   cases b with
   | false => simp at h; simp [h]
@@ -16,7 +16,7 @@ theorem wrapNull_ok {A b t0 t} (h : wrapNull A b t0 = .ok t) : t = if b then .nu
     simp only [Bool.not_true, Bool.false_eq_true, ↓reduceIte] at h
     split at h <;> first | (cases h; done) | (cases h; simp)
 
-theorem finish_ok {A wrap h t0 t} (hf : finish A wrap h t0 = .ok t) :
+theorem finish_ok {fu A wrap h t0 t} (hf : finish fu A wrap h t0 = .ok t) :
     t = if wrap then nullableMeaning h t0 else t0 := by
   unfold finish at hf
   cases wrap with
